@@ -161,6 +161,33 @@ def elementwise_same_index(v, f):
     return scan(eff, [])
 
 
+def evaluation_effects(v):
+    """deep mod sets with the proved add/remove pairs on const parameters exempted -> (Effects, {(usr, param index): (ok, detail, entries)})"""
+    E = Effects(v)
+    # first pass: find const-parameter writes, try to prove them balanced, exempt the proved ones
+    E.compute()
+    balanced = {}
+    for f in v.defined():
+        if not f.file.startswith("libtfhe/"):
+            continue
+        direct = {}
+        for (rk, fl), ev in E.mod(f.usr).items():
+            if rk[0] == "param" and f.params[rk[1]]["pointee_const"] and not ev[1].startswith("via "):
+                direct.setdefault(rk[1], []).append(((rk, fl), ev))
+        for pidx, entries in direct.items():
+            ok, detail = balanced_const_writes(v, f, pidx)
+            balanced[(f.usr, pidx)] = (ok, detail, entries)
+    if balanced:
+        E2 = Effects(v)
+        E2.eff = E.eff
+        for (usr, pidx), (ok, detail, entries) in balanced.items():
+            if ok:
+                E2.exempt.setdefault(usr, set()).update(k for k, _ in entries)
+        E2.compute()
+        E = E2
+    return E, balanced
+
+
 def run(chk):
     prog = Program()
     chk.explanation = (
@@ -180,28 +207,7 @@ def run(chk):
         roles = api.roles(v)
         evalfns = [v.defs[u] for u, r in roles.items() if r == "evaluation" and u in v.defs]
         chk.set_count("R1.evaluation_functions", len(evalfns))
-        E = Effects(v)
-        # first pass: find const-parameter writes, try to prove them balanced, exempt the proved ones
-        E.compute()
-        balanced = {}
-        for f in v.defined():
-            if not f.file.startswith("libtfhe/"):
-                continue
-            direct = {}
-            for (rk, fl), ev in E.mod(f.usr).items():
-                if rk[0] == "param" and f.params[rk[1]]["pointee_const"] and not ev[1].startswith("via "):
-                    direct.setdefault(rk[1], []).append(((rk, fl), ev))
-            for pidx, entries in direct.items():
-                ok, detail = balanced_const_writes(v, f, pidx)
-                balanced[(f.usr, pidx)] = (ok, detail, entries)
-        if balanced:
-            E2 = Effects(v)
-            E2.eff = E.eff
-            for (usr, pidx), (ok, detail, entries) in balanced.items():
-                if ok:
-                    E2.exempt.setdefault(usr, set()).update(k for k, _ in entries)
-            E2.compute()
-            E = E2
+        E, balanced = evaluation_effects(v)
         chk.set_count("R1.direct_const_param_writers", len(balanced))
         for (usr, pidx), (ok, detail, entries) in sorted(balanced.items()):
             f = v.defs[usr]
